@@ -267,8 +267,11 @@ func patTokens(s string) []ptok {
 func unquote(s string) []byte {
 	var out []byte
 	for i := 0; i < len(s); i++ {
-		if s[i] == '\\' && i+1 < len(s) {
+		if s[i] == '\\' {
 			i++
+			if i >= len(s) {
+				break // a dangling backslash (not a value string) quotes nothing
+			}
 		}
 		out = append(out, foldByte(s[i]))
 	}
@@ -355,4 +358,51 @@ func specTransformForURI(v string) (out string, ok bool) {
 		}
 	}
 	return b.String(), true
+}
+
+// specBindValueForURI: ANY (and unset) is the empty string, NA is "-"; a set
+// value is transformed byte by byte as transform_for_uri does (quoted '-' and
+// '.' as they are, every other quoted character percent-encoded, the unquoted
+// specials as %01 / %02, everything else unchanged).
+func specBindValueForURI(kind byte, v string) string {
+	switch kind {
+	case 'U', 'A':
+		return ""
+	case 'N':
+		return "-"
+	}
+	var b strings.Builder
+	esc := false
+	for i := 0; i < len(v); i++ {
+		c := v[i]
+		switch {
+		case esc:
+			esc = false
+			if c == '-' || c == '.' {
+				b.WriteByte(c)
+			} else {
+				const hexd = "0123456789abcdef"
+				b.WriteByte('%')
+				b.WriteByte(hexd[c>>4])
+				b.WriteByte(hexd[c&15])
+			}
+		case c == '\\':
+			esc = true
+		case c == '?':
+			b.WriteString("%01")
+		case c == '*':
+			b.WriteString("%02")
+		default:
+			b.WriteByte(c)
+		}
+	}
+	return b.String()
+}
+
+// specPack is pack() of NISTIR 7695 6.1.2.
+func specPack(ed, sw, tsw, thw, oth string) string {
+	if sw == "" && tsw == "" && thw == "" && oth == "" {
+		return ed
+	}
+	return "~" + ed + "~" + sw + "~" + tsw + "~" + thw + "~" + oth
 }
